@@ -13,6 +13,38 @@ pub fn run(case: &Value, f: &mut Fails) {
 	let Some(s_owned) = text_of(&case["w"]) else { return };
 	let s = s_owned.as_str();
 	let ok = case["ok"].as_bool().unwrap();
+	// ---- C20: the borrowed routes allocate nothing (a data URL is a borrowed URI)
+	{
+		use crate::alloc_count::allocs;
+		use serde::de::value::{BorrowedStrDeserializer, Error as DeError};
+		use serde::Deserialize;
+		const C20: &[&str] = &["C20"];
+		let a0 = allocs();
+		let ok1 = DataUrl::new(s).is_ok();
+		let a1 = allocs();
+		let ok2 = <&DataUrl>::try_from(s).is_ok();
+		let a2 = allocs();
+		if ok1 {
+			f.eq(C20, "DataUrl::new.allocs", a1 - a0, 0);
+		}
+		if ok2 {
+			f.eq(C20, "<&DataUrl>::try_from.allocs", a2 - a1, 0);
+		}
+		if ok1 {
+			// an accepted text through borrowed deserialisation (a rejected one builds an error message)
+			let a3 = allocs();
+			let r = <&DataUrl>::deserialize(BorrowedStrDeserializer::<DeError>::new(s)).is_ok();
+			let a4 = allocs();
+			if r {
+				f.eq(C20, "<&DataUrl>::deserialize(borrowed str).allocs", a4 - a3, 0);
+			}
+			if let Ok(v) = DataUrl::new(s) {
+				let a5 = allocs();
+				let _ = (v.media_type(), v.is_base_64_encoded(), v.encoded_data(), v.parts());
+				f.eq(C20, "DataUrl.accessors.allocs", allocs() - a5, 0);
+			}
+		}
+	}
 	// ---- every constructor gives the specification's verdict
 	let b = f.run(C18, "DataUrl::new", || DataUrl::new(s).ok());
 	let b2 = f.run(C18, "DataUrl::new(bytes)", || DataUrl::new(s.as_bytes()).is_ok());
